@@ -422,9 +422,16 @@ def other_methods(R):
             endoff = rng.choice([0, 0xfff, rng.getrandbits(20)])
             n = rng.randint(0, 6)
             origs = sorted(rng.sample(range(0, 1 << 24), n))
+            kk = rng.random()
+            if kk < 0.25:
+                origs.append(W - 1 - endoff)               # an element that ends at the top of the address space
+            elif kk < 0.35:
+                endoff, origs = W - 1, [0]                 # one element that covers everything
+            elif kk < 0.45:
+                origs.append(W - 1 - endoff - rng.choice([1, 0x1000]))
             tbl = ",".join("%d:%d" % (o, rng.getrandbits(40)) for o in origs)
             lines.append(("meth lookup %d %d %s" % (rng.choice([0, 1]), endoff, tbl)).rstrip())
-            addrs = [o + d for o in origs for d in (0, endoff, endoff + 1)] + [max(o - 1, 0) for o in origs] + [rng.getrandbits(24)]
+            addrs = [o + d for o in origs for d in (0, endoff, endoff + 1)] + [max(o - 1, 0) for o in origs] + [rng.getrandbits(24), W - 1]
         else:
             ml, be = mem_line(rng, "pfn64")
             lines.append(ml); lines.append("clr")
